@@ -10,6 +10,7 @@ package ro
 
 //@ operator Take
 //@   props C04 C14 C20 C08
+//@   scope count ctx destination index source subscriberCtx value
 //@   otherwise count == 0 : returns Empty()
 //@   requires count >= 1
 //@   ghost n int = 0
@@ -19,6 +20,7 @@ package ro
 
 //@ operator Skip
 //@   props C04 C08
+//@   scope count ctx destination index source subscriberCtx value
 //@   ghost n int = 0
 //@   inv index == n
 //@   on next(ctx, value) when n >= count : emits Next(ctx, value) ; n' = n + 1
@@ -26,12 +28,14 @@ package ro
 
 //@ operator MapIWithContext
 //@   props C04 C09 C08
+//@   scope ctx destination i project source subscriberCtx value
 //@   ghost n int = 0
 //@   inv i == n
 //@   on next(ctx, value) : emits Next(project_0(ctx, value, n), project_1(ctx, value, n)) ; n' = n + 1
 
 //@ operator FilterIWithContext
 //@   props C04 C09 C08
+//@   scope ctx destination i predicate source subscriberCtx value
 //@   ghost n int = 0
 //@   inv i == n
 //@   on next(ctx, value) when predicate_1(ctx, value, n) : emits Next(predicate_0(ctx, value, n), value) ; n' = n + 1
@@ -43,10 +47,12 @@ package ro
 
 //@ operator IgnoreElements
 //@   props C04 C08
+//@   scope ctx destination source subscriberCtx value
 //@   on next(ctx, value) : emits
 
 //@ operator SkipWhileIWithContext
 //@   props C04 C09 C08
+//@   scope ctx destination i predicate skipping source subscriberCtx value
 //@   note skipping starts (ghost passed == false) and ends for good at the first value the predicate rejects
 //@   ghost n int = 0
 //@   ghost passed bool = false
@@ -57,6 +63,7 @@ package ro
 
 //@ operator TakeWhileIWithContext
 //@   props C04 C09 C14 C08
+//@   scope ctx destination err i predicate skipping source subscriberCtx value
 //@   ghost n int = 0
 //@   inv i == n && !skipping
 //@   on next(ctx, value) when predicate_1(ctx, value, n) : emits Next(predicate_0(ctx, value, n), value) ; n' = n + 1
@@ -66,11 +73,13 @@ package ro
 
 //@ operator Head
 //@   props C04 C14 C08
+//@   scope ctx destination source subscriberCtx value
 //@   on next(ctx, value) : emits Next(ctx, value), Complete(ctx)
 //@   on complete(ctx) : emits Error(ctx, ErrHeadEmpty)
 
 //@ operator Tail
 //@   props C04 C09 C08
+//@   scope ctx destination hasValue last source subscriberCtx value
 //@   ghost n int = 0
 //@   ghost lastCtx val = nil
 //@   ghost lastVal val = nil
@@ -83,6 +92,7 @@ package ro
 
 //@ operator FirstIWithContext
 //@   props C04 C09 C14 C08
+//@   scope ctx destination i predicate source subscriberCtx value
 //@   ghost n int = 0
 //@   inv i == n
 //@   on next(ctx, value) when predicate_1(ctx, value, n) : emits Next(predicate_0(ctx, value, n), value), Complete(predicate_0(ctx, value, n))
@@ -91,6 +101,7 @@ package ro
 
 //@ operator LastIWithContext
 //@   props C04 C09 C08
+//@   scope ctx destination hasValue i last predicate source subscriberCtx value
 //@   ghost n int = 0
 //@   ghost found bool = false
 //@   ghost lastCtx val = nil
@@ -105,6 +116,7 @@ package ro
 
 //@ operator ElementAt
 //@   props C04 C14 C08
+//@   scope count ctx destination nth source subscriberCtx value
 //@   requires nth >= 0
 //@   ghost n int = 0
 //@   inv count == n && n <= nth
@@ -114,6 +126,7 @@ package ro
 
 //@ operator ElementAtOrDefault
 //@   props C04 C14 C08
+//@   scope count ctx destination fallback nth source subscriberCtx value
 //@   requires nth >= 0
 //@   ghost n int = 0
 //@   inv count == n && n <= nth
@@ -123,6 +136,7 @@ package ro
 
 //@ operator SkipLast
 //@   props C04 C07 C09 C08
+//@   scope buffer count ctx destination index size source subscriberCtx value
 //@   note the circular buffer is part of the machine state: a full buffer emits the (context, value) pair stored in the slot that the new value overwrites
 //@   requires count >= 1
 //@   inv len(buffer) == count && 0 <= index && index < count && 0 <= size && size <= count
@@ -138,12 +152,14 @@ package ro
 //@ func NewNotificationNext
 //@   props C04 C17
 //@   binds value
+//@   scope value
 //@   modular
 //@   ensures [kind-next] result.Kind == 0 && result.Value == value
 
 //@ func NewNotificationError
 //@   props C04 C17
 //@   binds err
+//@   scope err
 //@   modular
 //@   ensures [kind-error] result.Kind == 1 && result.Err == err
 
@@ -155,6 +171,7 @@ package ro
 //@ func processNotificationWithContext
 //@   props C17
 //@   binds ctx n onNext onError onComplete
+//@   scope ctx n onComplete onError onNext
 //@   maypanic
 //@   track callfn.*
 //@   ensures [next|C17] n.Kind == 0 ==> trace(callfn.onNext(ctx, n.Value)) && result == true
@@ -168,10 +185,12 @@ package ro
 
 //@ operator MapTo
 //@   props C04 C08
+//@   scope ctx destination output source subscriberCtx value
 //@   on next(ctx, value) : emits Next(ctx, output)
 
 //@ operator MapErrIWithContext
 //@   props C04 C07 C09 C08
+//@   scope count ctx destination project source subscriberCtx t
 //@   ghost n int = 0
 //@   inv count == n
 //@   on next(ctx, t) when project_2(ctx, t, n) == nil : emits Next(project_1(ctx, t, n), project_0(ctx, t, n)) ; n' = n + 1
@@ -179,11 +198,13 @@ package ro
 
 //@ operator Cast
 //@   props C04 C07 C08
+//@   scope ctx destination source subscriberCtx value
 //@   on next(ctx, value) when is_U(value) : emits Next(ctx, value)
 //@   on next(ctx, value) when !is_U(value) : emits Error(ctx, _)
 
 //@ operator ScanIWithContext
 //@   props C04 C09 C12 C08
+//@   scope accumulator ctx destination i reduce seed source subscriberCtx value
 //@   ghost n int = 0
 //@   ghost acc val = seed
 //@   inv i == n && accumulator == acc
@@ -191,6 +212,7 @@ package ro
 
 //@ operator Flatten
 //@   props C04 C08
+//@   scope ctx destination source subscriberCtx value
 //@   on next(ctx, value) : emits loop.L0
 
 //@ loop Flatten$1$1$1#0
@@ -200,6 +222,7 @@ package ro
 
 //@ operator BufferWithCount
 //@   props C04 C07 C08
+//@   scope buffer ctx destination size source subscriberCtx value varargs
 //@   requires size >= 1
 //@   inv len(buffer) < size
 //@   on next(ctx, value) when len(buffer) + 1 >= size : emits Next(ctx, appended(buffer, value)) ; post len(buffer') == 0
@@ -213,6 +236,7 @@ package ro
 
 //@ operator Count
 //@   props C04 C08
+//@   scope count ctx destination source subscriberCtx value
 //@   ghost n int = 0
 //@   inv count == n
 //@   on next(ctx, value) : emits ; n' = n + 1
@@ -220,6 +244,7 @@ package ro
 
 //@ operator Sum
 //@   props C04 C08
+//@   scope ctx destination source subscriberCtx sum value
 //@   ghost total val = nil
 //@   inv sum == total
 //@   note the initial value of `total` is the zero value of T, which the uninterpreted sort does not name: the initial-invariant check is skipped by leaving total unconstrained at subscription
@@ -228,6 +253,7 @@ package ro
 
 //@ operator Min
 //@   props C04 C09 C08
+//@   scope ctx destination first mIn source subscriberCtx value
 //@   ghost n int = 0
 //@   ghost mCtx val = nil
 //@   ghost mVal val = nil
@@ -241,6 +267,7 @@ package ro
 
 //@ operator Max
 //@   props C04 C09 C08
+//@   scope ctx destination first mAx source subscriberCtx value
 //@   ghost n int = 0
 //@   ghost mCtx val = nil
 //@   ghost mVal val = nil
@@ -254,12 +281,14 @@ package ro
 
 //@ operator Clamp
 //@   props C04 C08
+//@   scope ctx destination lower source subscriberCtx upper value
 //@   on next(ctx, value) when lt_T(value, lower) : emits Next(ctx, lower)
 //@   on next(ctx, value) when !lt_T(value, lower) && gt_T(value, upper) : emits Next(ctx, upper)
 //@   on next(ctx, value) when !lt_T(value, lower) && !gt_T(value, upper) : emits Next(ctx, value)
 
 //@ operator ReduceIWithContext
 //@   props C04 C09 C08
+//@   scope accumulator ctx destination i lastCtx output seed source subscriberCtx value
 //@   ghost n int = 0
 //@   ghost acc val = seed
 //@   ghost accCtx val = nil
@@ -275,6 +304,7 @@ package ro
 
 //@ operator AllIWithContext
 //@   props C04 C08
+//@   scope ctx destination i ok predicate source subscriberCtx value
 //@   ghost n int = 0
 //@   ghost all bool = true
 //@   inv ok == all
@@ -285,6 +315,7 @@ package ro
 
 //@ operator ContainsIWithContext
 //@   props C04 C14 C08
+//@   scope ctx destination i predicate source subscriberCtx value
 //@   ghost n int = 0
 //@   inv i == n
 //@   on next(ctx, value) when predicate_0(ctx, value, n) : emits Next(ctx, true), Complete(ctx)
@@ -293,6 +324,7 @@ package ro
 
 //@ operator FindIWithContext
 //@   props C04 C14 C08
+//@   scope ctx destination i predicate source subscriberCtx value
 //@   ghost n int = 0
 //@   inv i == n
 //@   on next(ctx, value) when predicate_0(ctx, value, n) : emits Next(ctx, value), Complete(ctx)
@@ -300,6 +332,7 @@ package ro
 
 //@ operator DefaultIfEmptyWithContext
 //@   props C04 C09 C08
+//@   scope ctx defaultCtx defaultValue destination empty source subscriberCtx value
 //@   ghost n int = 0
 //@   inv n >= 0 && empty == (n == 0)
 //@   given complete : defaultCtx != nil
@@ -313,18 +346,21 @@ package ro
 
 //@ operator TapWithContext
 //@   props C04 C09 C08
+//@   scope ctx destination err onComplete onError onNext source subscriberCtx value
 //@   on next(ctx, value) : emits Next(ctx, value)
 //@   on error(ctx, err) : emits Error(ctx, err)
 //@   on complete(ctx) : emits Complete(ctx)
 
 //@ operator Materialize
 //@   props C04 C17 C08
+//@   scope ctx destination err source subscriberCtx value
 //@   on next(ctx, value) : emits Next(ctx, fields(0, value, _))
 //@   on error(ctx, err) : emits Next(ctx, fields(1, _, err)), Complete(ctx)
 //@   on complete(ctx) : emits Next(ctx, fields(2, _, _)), Complete(ctx)
 
 //@ operator Dematerialize
 //@   props C04 C17 C08
+//@   scope ctx destination notif source subscriberCtx
 //@   inline processNotificationWithObserverAndContext processNotificationWithContext
 //@   on next(ctx, notif) when notif.Kind == 0 : emits Next(ctx, notif.Value)
 //@   on next(ctx, notif) when notif.Kind == 1 : emits Error(ctx, notif.Err)
@@ -333,6 +369,7 @@ package ro
 
 //@ operator ToSlice
 //@   props C04 C17 C08
+//@   scope ctx destination slice slicelit source subscriberCtx value varargs
 //@   note the accumulated slice is the machine state: empty at subscription, each value appended at the end, nothing else changed
 //@   ghost n int = 0
 //@   inv len(slice) == n && n >= 0
@@ -341,11 +378,13 @@ package ro
 
 //@ operator OnErrorReturn
 //@   props C04 C07 C08
+//@   scope ctx destination err finally source subscriberCtx
 //@   on next(ctx, value) : emits Next(ctx, value)
 //@   on error(ctx, err) : emits Next(ctx, finally), Complete(ctx)
 
 //@ operator ThrowIfEmpty
 //@   props C04 C07 C08
+//@   scope count ctx destination source subscriberCtx throw value
 //@   ghost n int = 0
 //@   inv count == n && n >= 0
 //@   on next(ctx, value) : emits Next(ctx, value) ; n' = n + 1
@@ -354,12 +393,14 @@ package ro
 
 //@ operator ContextWithValue
 //@   props C04 C09 C08
+//@   scope ctx destination err k source subscriberCtx v value
 //@   on next(ctx, value) : emits Next(ctx_WithValue(ctx, k, v), value)
 //@   on error(ctx, err) : emits Error(ctx_WithValue(ctx, k, v), err)
 //@   on complete(ctx) : emits Complete(ctx_WithValue(ctx, k, v))
 
 //@ operator ContextMapI
 //@   props C04 C09 C08
+//@   scope ctx destination i project source subscriberCtx value
 //@   ghost n int = 0
 //@   inv i == n
 //@   on next(ctx, value) : emits Next(project_0(ctx, n), value) ; n' = n + 1
@@ -370,6 +411,7 @@ package ro
 
 //@ operator Of
 //@   props C04 C09 C08
+//@   scope ctx destination values
 //@   on subscribe(ctx, destination) : emits loop.L0, Complete(ctx)
 
 //@ loop Of$1#0
@@ -380,18 +422,22 @@ package ro
 
 //@ operator Empty
 //@   props C04 C09 C08
+//@   scope ctx destination
 //@   on subscribe(ctx, destination) : emits Complete(ctx)
 
 //@ operator Throw
 //@   props C04 C07 C09 C08
+//@   scope ctx destination err
 //@   on subscribe(ctx, destination) : emits Error(ctx, err)
 
 //@ operator Start
 //@   props C04 C09 C08
+//@   scope cb ctx destination
 //@   on subscribe(ctx, destination) : emits Next(ctx, cb_0()), Complete(ctx)
 
 //@ operator Repeat
 //@   props C04 C09 C08
+//@   scope count ctx destination item
 //@   otherwise count == 0 : returns Empty()
 //@   requires count >= 1
 //@   on subscribe(ctx, destination) : emits loop.L0, Complete(ctx)
@@ -403,6 +449,7 @@ package ro
 
 //@ operator Range
 //@   props C04 C09 C08
+//@   scope ctx destination end sign start
 //@   note [start:end): start is emitted, end is not; ascending or descending by 1 according to the order of the bounds
 //@   otherwise start == end : returns Empty()
 //@   requires (start < end && sign == 1) || (start > end && sign == 0 - 1)
@@ -425,6 +472,7 @@ package ro
 //@   binds in done destination ctx
 //@   calls CompleteWithContext NextWithContext
 //@   params -
+//@   scope ctx destination done in
 //@   note every wait of the reader is one blocking select over the input channel and the teardown's done channel: it is never parked on the input alone, nor does it poll
 //@   track destination.* loop.* chselect chpoll chrecv.ANY
 //@   ensures [ends-by-completion-or-done|C17,C14,C03] trace(loop.L0, chselect(in, done)) || trace(loop.L0, chselect(in, done), destination.CompleteWithContext(ctx))
@@ -441,6 +489,7 @@ package ro
 //@   binds subscriberCtx destination size
 //@   calls NewSubscription NextWithContext recoverUnhandledError
 //@   params subscriberCtx destination
+//@   scope ch closeChan ctx destination err once size source subscriberCtx subscriptions value
 //@   track chmake destination.* spawn.*
 //@   ensures [one-channel-of-the-configured-capacity-handed-out-once|C17,C08] trace(chmake(size), spawn.ANY, destination.NextWithContext(subscriberCtx, _))
 
@@ -450,6 +499,7 @@ package ro
 //@   binds value ch destination
 //@   calls NewNotificationNext
 //@   params ctx value
+//@   scope ch closeChan ctx destination err once size source subscriberCtx subscriptions value
 //@   track chsend.* chselect chpoll destination.* call.Once.Do
 //@   ensures [one-blocking-send-per-value|C17,C08] trace(chsend.ch(_, fields(0, value, _)))
 
@@ -459,6 +509,7 @@ package ro
 //@   binds ctx err ch destination
 //@   calls CompleteWithContext NewNotificationError fn:closeChan
 //@   params ctx err
+//@   scope ch closeChan ctx destination err once size source subscriberCtx subscriptions value
 //@   track chsend.* chselect chpoll destination.* call.Once.Do
 //@   ensures [terminal-sent-then-closed-then-completed|C17,C08] trace(chsend.ch(_, fields(1, _, err)), call.Once.Do, destination.CompleteWithContext(ctx))
 
@@ -468,6 +519,7 @@ package ro
 //@   binds ctx ch destination
 //@   calls CompleteWithContext NewNotificationComplete fn:closeChan
 //@   params ctx
+//@   scope ch closeChan ctx destination err once size source subscriberCtx subscriptions value
 //@   track chsend.* chselect chpoll destination.* call.Once.Do
 //@   ensures [terminal-sent-then-closed-then-completed|C17,C08] trace(chsend.ch(_, fields(2, _, _)), call.Once.Do, destination.CompleteWithContext(ctx))
 
@@ -475,6 +527,7 @@ package ro
 //@   note the body run (once) by closeChan
 //@   props C17
 //@   binds ch
+//@   scope ch closeChan ctx destination err once size source subscriberCtx subscriptions value
 //@   track chclose.*
 //@   ensures [closes-the-channel|C17] trace(chclose.ch)
 
@@ -484,6 +537,7 @@ package ro
 //@   binds subscriptions
 //@   calls Unsubscribe fn:closeChan
 //@   params -
+//@   scope ch closeChan ctx destination err once size source subscriberCtx subscriptions value
 //@   track subscriptions.* call.Once.Do chclose.* chrecv.* chsend.* chselect chpoll
 //@   ensures [releases-upstream-then-closes-once|C17,C03,C14] trace(subscriptions.Unsubscribe(), call.Once.Do)
 //@   ensures [takes-nothing-out-of-the-channel|C17] count(chrecv.ANY) == 0 && count(chpoll) == 0 && count(chselect) == 0
@@ -498,6 +552,7 @@ package ro
 //@   binds bufferSize
 //@   calls NewSubscription fn:consumeUpstream fn:produceDownstream recoverUnhandledError
 //@   params subscriberCtx destination
+//@   scope bufferSize ch consumeUpstream ctx destination err onDownstream onUpstream once produceDownstream source stop subscriberCtx subscriptions value
 //@   maypanic
 //@   inline processNotificationWithContext
 //@   track chmake
@@ -509,6 +564,7 @@ package ro
 //@   binds ctx value ch destination
 //@   calls NewNotificationNext T2
 //@   params ctx value
+//@   scope bufferSize ch consumeUpstream ctx destination err onDownstream onUpstream once produceDownstream source stop subscriberCtx subscriptions value
 //@   track chsend.* chselect chpoll destination.* call.Once.Do
 //@   ensures [one-blocking-send-per-value|C08] trace(chsend.ch(_, fields(ctx, fields(0, value, _))))
 
@@ -518,6 +574,7 @@ package ro
 //@   binds ctx err ch destination
 //@   calls NewNotificationError T2 fn:stop
 //@   params ctx err
+//@   scope bufferSize ch consumeUpstream ctx destination err onDownstream onUpstream once produceDownstream source stop subscriberCtx subscriptions value
 //@   track chsend.* chselect chpoll destination.* call.Once.Do
 //@   ensures [terminal-queued-like-a-value-then-closed|C08] trace(chsend.ch(_, fields(ctx, fields(1, _, err))), call.Once.Do)
 
@@ -527,6 +584,7 @@ package ro
 //@   binds ctx ch destination
 //@   calls NewNotificationComplete T2 fn:stop
 //@   params ctx
+//@   scope bufferSize ch consumeUpstream ctx destination err onDownstream onUpstream once produceDownstream source stop subscriberCtx subscriptions value
 //@   track chsend.* chselect chpoll destination.* call.Once.Do
 //@   ensures [terminal-queued-like-a-value-then-closed|C08] trace(chsend.ch(_, fields(ctx, fields(2, _, _))), call.Once.Do)
 
@@ -536,6 +594,7 @@ package ro
 //@   binds ch destination
 //@   calls processNotificationWithContext
 //@   params -
+//@   scope bufferSize ch consumeUpstream ctx destination err onDownstream onUpstream once produceDownstream source stop subscriberCtx subscriptions value
 //@   maypanic
 //@   inline processNotificationWithContext
 //@   track chrecv.* destination.* loop.* spawn.*
@@ -551,6 +610,7 @@ package ro
 
 //@ operator MergeAll
 //@   props C05 C09 C04 C08 C20
+//@   scope ctx destination onDone parentCtx parentCtxMu source sources subscriberCtx subscriptions subscriptionsCount
 //@   note live = number of inner sources subscribed and not yet completed; outerLive = 1 until the outer observable completes
 //@   ghost outerLive int = 1
 //@   ghost live int = 0
@@ -570,18 +630,21 @@ package ro
 
 //@ operator TakeUntil
 //@   props C05 C14 C04 C08
+//@   scope ctx destination ready signal source subscriberCtx value
 //@   on next@source(ctx, value) when ready == 1 : emits
 //@   on next@source(ctx, value) when ready != 1 : emits Next(ctx, value)
 //@   on next@signal(ctx, value) : emits Complete(ctx) ; post ready' == 1
 
 //@ operator SkipUntil
 //@   props C05 C04 C08
+//@   scope ctx destination ready signal source subscriberCtx value
 //@   on next@source(ctx, value) when ready == 1 : emits Next(ctx, value)
 //@   on next@source(ctx, value) when ready != 1 : emits
 //@   on next@signal(ctx, value) : emits ; post ready' == 1
 
 //@ operator ThrottleWhen
 //@   props C05 C16 C04 C08
+//@   scope ctx destination send source subscriberCtx tick value
 //@   note the gate starts closed (pinned by TestOperatorTransformationThrottleWhen: values before the first tick are dropped), a tick opens it, the next source value passes and closes it again
 //@   ghost open bool = false
 //@   inv (send == 1) == open && (send == 0 || send == 1)
@@ -591,6 +654,7 @@ package ro
 
 //@ operator BufferWhen
 //@   props C05 C16 C04 C08
+//@   scope boundary buffer ctx destination flush mu muFlush slicelit source subscriberCtx subscriptions value varargs
 //@   note every flush hands the whole buffer over and starts an empty one
 //@   on next@source(ctx, value) : emits ; post len(buffer') == len(buffer) + 1 && buffer'[len(buffer)] == value
 //@   on complete@source(ctx) : emits Next(ctx, buffer), Complete(ctx) ; post len(atevent(destination.NextWithContext, buffer)) == 0
@@ -599,6 +663,7 @@ package ro
 
 //@ operator SampleWhen
 //@   props C05 C16 C09 C04 C08
+//@   scope ctx destination hasValue last mu source subscriberCtx tick value
 //@   inv hasValue ==> last.A != nil
 //@   on next@source(ctx, value) : emits ; post hasValue' == true && last'.A == ctx && last'.B == value
 //@   on next@tick(ctx, value) when hasValue : emits Next(last.A, last.B) ; post hasValue' == false
@@ -606,6 +671,7 @@ package ro
 
 //@ operator WindowWhen
 //@   props C05 C20 C04 C08
+//@   scope boundary ctx destination err flush mu muEmit skipNew source subscriberCtx value window
 //@   track window.* call.NewUnicastSubject
 //@   inv window != nil
 //@   on next@source(ctx, value) : emits window.NextWithContext(ctx, value)
@@ -617,6 +683,7 @@ package ro
 
 //@ operator GroupByIWithContext
 //@   props C05 C20 C09 C04 C08
+//@   scope cb clearGroups ctx destination err groups i iteratee key notifyAll o source sub subscriberCtx value
 //@   alias subject=NewUnicastSubject()
 //@   track groups.Load groups.Store elem.* call.NewUnicastSubject NewUnicastSubject().*
 //@   ghost n int = 0
@@ -629,6 +696,7 @@ package ro
 
 //@ operator RaceWith
 //@   props C05 C07 C14 C04 C08
+//@   scope all ctx destination err except j mu slicelit source sources subscriberCtx subscriptions unsubscribeOthers value won
 //@   otherwise len(sources) == 0 : returns RaceWith$1
 //@   note won is -1 until a source notifies; j is the index of the source these callbacks belong to
 //@   on next(ctx, value) when won == -1 || won == j : emits Next(ctx, value) ; post won' == j
@@ -651,6 +719,7 @@ package ro
 
 //@ operator RetryWithConfig
 //@   props C15 C09 C14 C04 C08
+//@   scope ctx destination err lastCtx lastErr opts retries shouldRetry source subscriberCtx value
 //@   alias attempt=source.SubscribeWithContext()
 //@   on next(ctx, value) when opts.ResetOnSuccess : emits Next(ctx, value) ; post retries' == 0
 //@   on next(ctx, value) when !opts.ResetOnSuccess : emits Next(ctx, value) ; post retries' == retries
@@ -667,6 +736,7 @@ package ro
 
 //@ operator RepeatWith
 //@   props C15 C09 C04 C08 C14
+//@   scope count ctx destination lastCtx source subscriberCtx
 //@   otherwise count == 0 : returns Empty()
 //@   alias attempt=source.SubscribeWithContext()
 //@   requires count >= 1
@@ -681,6 +751,7 @@ package ro
 
 //@ operator OnErrorResumeNextWith
 //@   props C15 C09 C04 C08
+//@   scope ctx destination e err finally lastCtx slicelit source sources subscriberCtx
 //@   otherwise len(finally) == 0 : returns source
 //@   alias attempt=sources[].SubscribeWithContext() each=sources[]
 //@   on next(ctx, value) : emits Next(ctx, value)
@@ -693,6 +764,7 @@ package ro
 
 //@ operator DoWhileIWithContext
 //@   props C15 C09 C04 C08
+//@   scope completed condition ctx currentCtx destination err i lastErr shouldContinue source subscriberCtx
 //@   alias attempt=source.SubscribeWithContext()
 //@   on next(ctx, value) : emits Next(ctx, value)
 //@   on error(ctx, err) : emits Error(ctx, err) ; post lastErr' == err
@@ -704,6 +776,7 @@ package ro
 
 //@ operator WhileIWithContext
 //@   props C15 C09 C04 C08
+//@   scope condition ctx destination err lastErr source subscriberCtx
 //@   alias attempt=source.SubscribeWithContext()
 //@   on next(ctx, value) : emits Next(ctx, value)
 //@   on error(ctx, err) : emits Error(ctx, err) ; post lastErr' == err
@@ -715,6 +788,7 @@ package ro
 
 //@ operator ConcatAll
 //@   props C15 C05 C04 C08
+//@   scope ctx destination err source sources subscriberCtx subscriptions
 //@   alias inner=source.SubscribeWithContext()
 //@   track source.SubscribeWithContext source.SubscribeWithContext().* subscriptions.*
 //@   note a source handed over after the output ended (an earlier source failed, or the downstream left) is not subscribed at all
@@ -732,6 +806,7 @@ package ro
 
 //@ operator Delay
 //@   props C16 C08 C09 C04
+//@   scope consume ctx destination duration err muNext muQueue notif produce queue slicelit source sub subscriberCtx value varargs
 //@   note every notification is queued with its context, and one timer of the configured duration is armed for it; nothing is delivered by the upstream callback itself
 //@   track call.AfterFunc
 //@   on next(ctx, value) : emits call.AfterFunc(duration, _) ; post len(queue') == len(queue) + 1 && queue'[len(queue)].A == ctx && queue'[len(queue)].B.Kind == 0 && queue'[len(queue)].B.Value == value
@@ -744,6 +819,7 @@ package ro
 //@   binds muQueue queue muNext destination
 //@   calls Lock Unlock processNotificationWithObserverAndContext
 //@   params -
+//@   scope consume ctx destination duration err muNext muQueue notif produce queue slicelit source sub subscriberCtx value varargs
 //@   maypanic
 //@   inline processNotificationWithObserverAndContext processNotificationWithContext
 //@   track destination.*
@@ -756,6 +832,7 @@ package ro
 
 //@ operator Timeout
 //@   props C16 C09 C04 C08
+//@   scope ctx destination duration err lastCtx source sub subscriberCtx timer value
 //@   track call.Timer.Stop call.Timer.Reset
 //@   on next(ctx, value) : emits call.Timer.Stop(_), Next(ctx, value), call.Timer.Reset(_, duration)
 //@   on error(ctx, err) : emits call.Timer.Stop(_), Error(ctx, err)
@@ -767,6 +844,7 @@ package ro
 //@   binds destination ctx
 //@   calls CompleteWithContext Done NextWithContext
 //@   params -
+//@   scope ctx destination done interval ticker
 //@   track destination.* loop.* chselect chpoll chrecv.ANY ctx.Done
 //@   ensures [completes-when-told-to-stop|C16] trace(loop.L0, ctx.Done(), chselect, destination.CompleteWithContext(ctx))
 
@@ -781,6 +859,7 @@ package ro
 
 //@ operator Pairwise
 //@   props C04 C08
+//@   scope count ctx destination last slicelit source subscriberCtx value
 //@   ghost n int = 0
 //@   ghost prev val = nil
 //@   inv count == n && n >= 0
@@ -790,6 +869,7 @@ package ro
 
 //@ operator EndWith
 //@   props C04 C09 C08
+//@   scope ctx destination source subscriberCtx suffixes
 //@   on next(ctx, value) : emits Next(ctx, value)
 //@   on complete(ctx) : emits loop.L0, Complete(ctx)
 
@@ -801,6 +881,7 @@ package ro
 
 //@ operator ContextReset
 //@   props C04 C09 C08
+//@   scope destination err newCtx source subscriberCtx value
 //@   requires newCtx != nil
 //@   on next(ctx, value) : emits Next(newCtx, value)
 //@   on error(ctx, err) : emits Error(newCtx, err)
@@ -808,6 +889,7 @@ package ro
 
 //@ operator ToMapIWithContext
 //@   props C04 C17 C08
+//@   scope ctx destination i mapper output source subscriberCtx value
 //@   note the accumulated map is the machine state: each value overwrites the entry of its key (last write wins)
 //@   ghost n int = 0
 //@   inv i == n
@@ -816,16 +898,19 @@ package ro
 
 //@ operator Distinct
 //@   props C04 C08
+//@   scope ctx destination seen source subscriberCtx value
 //@   on next(ctx, value) when !has(seen, value) : emits Next(ctx, value) ; post keysadded(seen, value)
 //@   on next(ctx, value) when has(seen, value) : emits ; post mapsame(seen)
 
 //@ operator DistinctByWithContext
 //@   props C04 C09 C08
+//@   scope ctx destination keySelector seen source subscriberCtx value
 //@   on next(ctx, value) when !has(seen, keySelector_1(ctx, value)) : emits Next(keySelector_0(ctx, value), value) ; post keysadded(seen, keySelector_1(ctx, value))
 //@   on next(ctx, value) when has(seen, keySelector_1(ctx, value)) : emits ; post mapsame(seen)
 
 //@ operator TakeLast
 //@   props C04 C09 C08
+//@   scope buffer count ctx destination index source subscriberCtx value varargs
 //@   otherwise count == 0 : returns Empty()
 //@   note the sliding buffer is the machine state: it holds the last min(index, count) (context, value) pairs in arrival order
 //@   requires count >= 1
@@ -845,6 +930,7 @@ package ro
 
 //@ operator StartWith
 //@   props C04 C09 C08
+//@   scope destination prefixes source subscriberCtx
 //@   note the prefixes are delivered first, in order; then the source is subscribed with the downstream observer itself
 //@   track source.SubscribeWithContext
 //@   on subscribe(ctx, destination) : emits loop.L0, source.SubscribeWithContext(ctx, destination)
@@ -857,16 +943,19 @@ package ro
 
 //@ operator TapOnSubscribeWithContext
 //@   props C04 C09 C08
+//@   scope destination onSubscribe source subscriberCtx
 //@   track source.SubscribeWithContext callfn.onSubscribe
 //@   on subscribe(ctx, destination) : emits callfn.onSubscribe(ctx), source.SubscribeWithContext(ctx, destination)
 
 //@ operator TapOnFinalize
 //@   props C04 C03 C08
+//@   scope destination onFinalize source sub subscriberCtx
 //@   track source.SubscribeWithContext
 //@   on subscribe(ctx, destination) : emits source.SubscribeWithContext(ctx, destination)
 
 //@ operator FromSlice
 //@   props C04 C09 C08
+//@   scope collections ctx destination
 //@   on subscribe(ctx, destination) : emits loop.L0, Complete(ctx)
 
 //@ loop FromSlice$1#0
@@ -882,18 +971,21 @@ package ro
 
 //@ operator Timestamp
 //@   props C04 C09 C08
+//@   scope ctx destination source start subscriberCtx value
 //@   note the time attached to a value is the clock reading at that value minus the reading taken at subscription
 //@   track call.NowNanoMonotonic
 //@   on next(ctx, value) : emits call.NowNanoMonotonic(), Next(ctx, fields(value, res(call.NowNanoMonotonic) - start))
 
 //@ operator TimeInterval
 //@   props C04 C09 C08
+//@   scope ctx destination previous source subscriberCtx value
 //@   note the interval attached to a value is the clock reading at that value minus the previous reading (the subscription's for the first value), and that reading becomes the previous one
 //@   track call.NowNanoMonotonic
 //@   on next(ctx, value) : emits call.NowNanoMonotonic(), Next(ctx, fields(value, res(call.NowNanoMonotonic) - previous)) ; post previous' == res(call.NowNanoMonotonic)
 
 //@ operator Average
 //@   props C04 C01 C08
+//@   scope count ctx destination source subscriberCtx sum value
 //@   ghost n int = 0
 //@   inv count == n && n >= 0
 //@   on next(ctx, value) : emits ; n' = n + 1
@@ -905,6 +997,7 @@ package ro
 //@   binds predicate source1 source2
 //@   calls fn:predicate
 //@   params -
+//@   scope predicate source1 source2
 //@   maypanic
 //@   track callfn.*
 //@   ensures [asks-once] !panics ==> count(callfn.predicate) == 1
@@ -915,6 +1008,7 @@ package ro
 
 //@ operator ThrottleTime
 //@   props C04 C16 C08
+//@   scope ctx destination first interval intervalNano lastAt source subscriberCtx value
 //@   note the first value of a subscription always passes (it opens the first window); afterwards a value passes only when strictly more than the configured duration (in the clock's own unit, nanoseconds) has elapsed since the last value that passed
 //@   ghost seen bool = false
 //@   inv first == !seen
@@ -926,12 +1020,14 @@ package ro
 
 //@ operator DelayEach
 //@   props C04 C16 C08
+//@   scope ctx destination duration source subscriberCtx value
 //@   note each value is handed on only after the producer has been held for the whole duration
 //@   track call.Sleep
 //@   on next(ctx, value) : emits call.Sleep(duration), Next(ctx, value)
 
 //@ operator Catch
 //@   props C04 C07 C09 C08 C15
+//@   scope ctx destination err finally source subscriberCtx subscriptions
 //@   note on an error the fallback chosen by the user function is subscribed with the error notification's context and the downstream observer itself, and is registered for release
 //@   alias fallback=finally()
 //@   track callfn.finally fallback.SubscribeWithContext subscriptions.*
@@ -942,6 +1038,7 @@ package ro
 //@   note RaceWith() without competitors is the identity
 //@   props C05 C04
 //@   binds source
+//@   scope all ctx destination err except j mu slicelit source sources subscriberCtx subscriptions unsubscribeOthers value won
 //@   ensures [identity] result == source
 
 // ---------------------------------------------------------------------------
@@ -954,6 +1051,7 @@ package ro
 //@   binds ctx mu values muEmit destination subscriptions
 //@   calls CompleteWithContext Lock Unlock Unsubscribe
 //@   params ctx
+//@   scope completed ctx destination err mu muEmit obs onUpdate subscriberCtx subscriptions v values varargs
 //@   track destination.* subscriptions.*
 //@   ensures [a-drained-source-completes-the-output|C05,C09] len(old(values)) == 0 ==> trace(destination.CompleteWithContext(ctx), subscriptions.Unsubscribe())
 //@   ensures [a-finished-source-with-queued-values-keeps-the-others-subscribed|C05] len(old(values)) > 0 ==> trace()
@@ -965,11 +1063,13 @@ package ro
 //@   binds ctx err destination subscriptions
 //@   calls ErrorWithContext Lock Unlock Unsubscribe
 //@   params ctx err
+//@   scope completed ctx destination err mu muEmit obs onUpdate subscriberCtx subscriptions v values varargs
 //@   track destination.* subscriptions.*
 //@   ensures [error-ends-the-output-and-releases-the-others|C05,C09,C07,C14] trace(destination.ErrorWithContext(ctx, err), subscriptions.Unsubscribe())
 
 //@ operator Serialize
 //@   props C02 C08 C04
+//@   scope destination source subscriberCtx
 //@   note Serialize is the identity on notifications; its whole meaning is its constructor: the locking one, whose Next blocks until the downstream is free (never dropping)
 //@   constructor NewSafeObservableWithContext
 //@   track source.SubscribeWithContext
@@ -977,6 +1077,7 @@ package ro
 
 //@ operator FlatMapIWithContext
 //@   props C04 C05 C08 C09
+//@   scope ctx destination i project source subscriberCtx value
 //@   note the projection stage: every value becomes the observable the user function returns for it (with the running index); the stage is flattened by ConcatAll (see FlatMapIWithContext$1)
 //@   ghost n int = 0
 //@   inv i == n
@@ -990,6 +1091,7 @@ package ro
 //@ func CollectWithContext
 //@   props C06 C17
 //@   binds ctx obs
+//@   scope ctx err lastCtx obs slicelit thrown value values varargs
 //@   alias sub=obs.SubscribeWithContext()
 //@   track obs.*
 //@   ensures [returns-only-after-the-subscription-ended|C06,C17] trace(obs.SubscribeWithContext(ctx, _), sub.Wait())
@@ -1000,6 +1102,7 @@ package ro
 //@   binds ctx mu valueA valueB muEmit destination completedA completedB
 //@   calls CompleteWithContext Lock NextWithContext T2 Unlock
 //@   params ctx
+//@   scope completedA completedB ctx destination mu muEmit obsA obsB subscriberCtx subscriptions valueA valueB
 //@   track destination.*
 //@   ensures [take-and-delivery-are-one-step-for-the-other-sources|C05] heldat(muEmit, destination.ANY) && notheldat(mu, destination.ANY)
 //@   ensures [no-tuple-until-every-queue-has-a-value|C05] !(len(old(valueA)) > 0 && len(old(valueB)) > 0) ==> trace()
@@ -1013,6 +1116,7 @@ package ro
 //@   binds ctx mu valueA valueB valueC muEmit destination completedA completedB completedC
 //@   calls CompleteWithContext Lock NextWithContext T3 Unlock
 //@   params ctx
+//@   scope completedA completedB completedC ctx destination mu muEmit obsA obsB obsC subscriberCtx subscriptions valueA valueB valueC
 //@   track destination.*
 //@   ensures [take-and-delivery-are-one-step-for-the-other-sources|C05] heldat(muEmit, destination.ANY) && notheldat(mu, destination.ANY)
 //@   ensures [no-tuple-until-every-queue-has-a-value|C05] !(len(old(valueA)) > 0 && len(old(valueB)) > 0 && len(old(valueC)) > 0) ==> trace()
@@ -1026,6 +1130,7 @@ package ro
 //@   binds ctx mu valueA valueB valueC valueD muEmit destination completedA completedB completedC completedD
 //@   calls CompleteWithContext Lock NextWithContext T4 Unlock
 //@   params ctx
+//@   scope completedA completedB completedC completedD ctx destination mu muEmit obsA obsB obsC obsD subscriberCtx subscriptions valueA valueB valueC valueD
 //@   track destination.*
 //@   ensures [take-and-delivery-are-one-step-for-the-other-sources|C05] heldat(muEmit, destination.ANY) && notheldat(mu, destination.ANY)
 //@   ensures [no-tuple-until-every-queue-has-a-value|C05] !(len(old(valueA)) > 0 && len(old(valueB)) > 0 && len(old(valueC)) > 0 && len(old(valueD)) > 0) ==> trace()
@@ -1039,6 +1144,7 @@ package ro
 //@   binds ctx mu valueA valueB valueC valueD valueE muEmit destination completedA completedB completedC completedD completedE
 //@   calls CompleteWithContext Lock NextWithContext T5 Unlock
 //@   params ctx
+//@   scope completedA completedB completedC completedD completedE ctx destination mu muEmit obsA obsB obsC obsD obsE subscriberCtx subscriptions valueA valueB valueC valueD valueE
 //@   track destination.*
 //@   ensures [take-and-delivery-are-one-step-for-the-other-sources|C05] heldat(muEmit, destination.ANY) && notheldat(mu, destination.ANY)
 //@   ensures [no-tuple-until-every-queue-has-a-value|C05] !(len(old(valueA)) > 0 && len(old(valueB)) > 0 && len(old(valueC)) > 0 && len(old(valueD)) > 0 && len(old(valueE)) > 0) ==> trace()
@@ -1052,6 +1158,7 @@ package ro
 //@   binds ctx mu valueA valueB valueC valueD valueE valueF muEmit destination completedA completedB completedC completedD completedE completedF
 //@   calls CompleteWithContext Lock NextWithContext T6 Unlock
 //@   params ctx
+//@   scope completedA completedB completedC completedD completedE completedF ctx destination mu muEmit obsA obsB obsC obsD obsE obsF subscriberCtx subscriptions valueA valueB valueC valueD valueE valueF
 //@   track destination.*
 //@   ensures [take-and-delivery-are-one-step-for-the-other-sources|C05] heldat(muEmit, destination.ANY) && notheldat(mu, destination.ANY)
 //@   ensures [no-tuple-until-every-queue-has-a-value|C05] !(len(old(valueA)) > 0 && len(old(valueB)) > 0 && len(old(valueC)) > 0 && len(old(valueD)) > 0 && len(old(valueE)) > 0 && len(old(valueF)) > 0) ==> trace()
@@ -1061,6 +1168,7 @@ package ro
 
 //@ operator ZipAll
 //@   props C05 C04 C08
+//@   scope ctx destination err flattenSources innerSub outerSub sources subscriberCtx
 //@   note the list of sources is collected first; the zipped sources then decide every notification of the output, including its completion: reading the list to its end completes nothing (unless there is nothing to zip)
 //@   track call.zipAllInnerSubscriptions innerSub.Add
 //@   on next(ctx, flattenSources) when len(flattenSources) == 0 : emits Complete(ctx)
@@ -1070,6 +1178,7 @@ package ro
 
 //@ operator CombineLatestWith1
 //@   props C04 C05 C08
+//@   scope a b ctx destination err mu obsA obsB onCompleted onUpdate status subscriberCtx subscriptions v valueA valueB
 //@   note sequential-interleaving semantics (whole callbacks); the state is the real state: the status word and the two latest-value pointers
 //@   inline (*Pointer).Load (*Pointer).Store
 //@   on next@obsA(ctx, v) when status < 2 && valueB.p.v != nil : emits Next(ctx, fields(v, deref(valueB.p.v)))
@@ -1085,6 +1194,7 @@ package ro
 
 //@ operator CombineLatestWith2
 //@   props C04 C05 C08
+//@   scope a b c ctx destination err mu obsA obsB obsC onCompleted onUpdate status subscriberCtx subscriptions v valueA valueB valueC
 //@   note as CombineLatestWith1 over 3 sources: status counts completed sources, 3 = done, 4 = failed
 //@   inline (*Pointer).Load (*Pointer).Store
 //@   on next@obsA(ctx, v) when status < 3 && valueB.p.v != nil && valueC.p.v != nil : emits Next(ctx, fields(v, deref(valueB.p.v), deref(valueC.p.v)))
@@ -1105,6 +1215,7 @@ package ro
 
 //@ operator CombineLatestWith3
 //@   props C04 C05 C08
+//@   scope a b c ctx d destination err mu obsA obsB obsC obsD onCompleted onUpdate status subscriberCtx subscriptions v valueA valueB valueC valueD
 //@   note as CombineLatestWith1 over 4 sources: status counts completed sources, 4 = done, 5 = failed
 //@   inline (*Pointer).Load (*Pointer).Store
 //@   on next@obsA(ctx, v) when status < 4 && valueB.p.v != nil && valueC.p.v != nil && valueD.p.v != nil : emits Next(ctx, fields(v, deref(valueB.p.v), deref(valueC.p.v), deref(valueD.p.v)))
@@ -1130,6 +1241,7 @@ package ro
 
 //@ operator CombineLatestWith4
 //@   props C04 C05 C08
+//@   scope a b c ctx d destination e err mu obsA obsB obsC obsD obsE onCompleted onUpdate status subscriberCtx subscriptions v valueA valueB valueC valueD valueE
 //@   note as CombineLatestWith1 over 5 sources: status counts completed sources, 5 = done, 6 = failed
 //@   inline (*Pointer).Load (*Pointer).Store
 //@   on next@obsA(ctx, v) when status < 5 && valueB.p.v != nil && valueC.p.v != nil && valueD.p.v != nil && valueE.p.v != nil : emits Next(ctx, fields(v, deref(valueB.p.v), deref(valueC.p.v), deref(valueD.p.v), deref(valueE.p.v)))
@@ -1162,6 +1274,7 @@ package ro
 
 //@ operator Defer
 //@   props C04 C12 C09 C08
+//@   scope ctx destination factory
 //@   note the factory is asked once per subscription, and what it returns is subscribed with the subscriber's context and the downstream observer itself
 //@   alias made=factory()
 //@   track callfn.factory made.SubscribeWithContext
@@ -1169,6 +1282,7 @@ package ro
 
 //@ operator MergeMapIWithContext
 //@   props C04 C05 C09 C08 C20
+//@   scope ctx destination i projection source subscriberCtx value
 //@   note the projection stage: every value becomes the (context, observable) pair the user function returns for it, with the running index; the stage is flattened by MergeAll (see MergeMapIWithContext$1)
 //@   ghost n int = 0
 //@   inv i == n
@@ -1181,6 +1295,7 @@ package ro
 
 //@ operator SequenceEqual
 //@   props C04 C05 C08
+//@   scope ctx destination obsB source subscriberCtx values
 //@   note the two sequences are zipped; the first differing pair answers false at once, the end of the zip answers true
 //@   on next(ctx, values) when values.A != values.B : emits Next(ctx, false), Complete(ctx)
 //@   on next(ctx, values) when values.A == values.B : emits
@@ -1194,10 +1309,12 @@ package ro
 
 //@ operator ContextWithTimeout
 //@   props C04 C09 C08
+//@   scope ctx destination source subscriberCtx timeout value
 //@   on next(ctx, value) : emits Next(ctx_WithTimeout(ctx, timeout), value)
 
 //@ operator ContextWithDeadline
 //@   props C04 C09 C08
+//@   scope ctx deadline destination source subscriberCtx value
 //@   on next(ctx, value) : emits Next(ctx_WithDeadline(ctx, deadline), value)
 
 //@ func Timer$1
@@ -1206,6 +1323,7 @@ package ro
 //@   binds ctx destination duration
 //@   calls CompleteWithContext Done Err ErrorWithContext NewTimer NextWithContext Stop
 //@   params ctx destination
+//@   scope ctx destination duration
 //@   track destination.* chselect chpoll call.NewTimer call.Timer.Stop
 //@   ensures [arms-one-timer-of-the-duration-and-waits-for-it|C16] called(call.NewTimer) && arg(call.NewTimer, 0) == duration && count(call.NewTimer) == 1 && count(chselect) == 1 && count(chpoll) == 0 && before(call.NewTimer, chselect)
 //@   ensures [emits-the-duration-only-after-the-wait|C16,C04] called(destination.NextWithContext) ==> before(chselect, destination.NextWithContext) && arg(destination.NextWithContext, 0) == ctx && arg(destination.NextWithContext, 1) == duration && before(destination.NextWithContext, destination.CompleteWithContext)
@@ -1217,6 +1335,7 @@ package ro
 //@   binds destination ctx timer ticker
 //@   calls CompleteWithContext Done NextWithContext Reset
 //@   params -
+//@   scope ctx destination done initial interval ticker timer value
 //@   track destination.* loop.* chselect chpoll chrecv.ANY ctx.Done
 //@   requires timer.C != ticker.C
 //@   ensures [completes-when-told-to-stop|C16] trace(loop.L0, ctx.Done(), chselect, destination.CompleteWithContext(ctx))
@@ -1231,26 +1350,31 @@ package ro
 
 //@ operator Abs
 //@   props C04 C08
+//@   scope ctx destination source subscriberCtx value
 //@   track call.Abs
 //@   on next(ctx, value) : emits call.Abs(value), Next(ctx, res(call.Abs))
 
 //@ operator Round
 //@   props C04 C08
+//@   scope ctx destination source subscriberCtx value
 //@   track call.Round
 //@   on next(ctx, value) : emits call.Round(value), Next(ctx, res(call.Round))
 
 //@ operator Ceil
 //@   props C04 C08
+//@   scope ctx destination source subscriberCtx value
 //@   track call.Ceil
 //@   on next(ctx, value) : emits call.Ceil(value), Next(ctx, res(call.Ceil))
 
 //@ operator Floor
 //@   props C04 C08
+//@   scope ctx destination source subscriberCtx value
 //@   track call.Floor
 //@   on next(ctx, value) : emits call.Floor(value), Next(ctx, res(call.Floor))
 
 //@ operator Trunc
 //@   props C04 C08
+//@   scope ctx destination source subscriberCtx value
 //@   track call.Trunc
 //@   on next(ctx, value) : emits call.Trunc(value), Next(ctx, res(call.Trunc))
 
@@ -1262,6 +1386,7 @@ package ro
 //@   binds ctx status values destination
 //@   calls Load LoadInt32 NextWithContext
 //@   params ctx
+//@   scope ctx destination err j mu new observables onCompleted onUpdate sources status subscribeInner subscriberCtx subscriptions v values varargs
 //@   inline (*Pointer).Load
 //@   track destination.* loop.*
 //@   ensures [silent-once-done-or-failed|C05] loaded(status) <= 0 ==> trace()
@@ -1278,6 +1403,7 @@ package ro
 //@   binds status destination
 //@   calls CompleteWithContext LoadInt32
 //@   params ctx
+//@   scope ctx destination err j mu new observables onCompleted onUpdate sources status subscribeInner subscriberCtx subscriptions v values varargs
 //@   track destination.*
 //@   ensures [completes-only-when-every-source-is-done|C05] iff(called(destination.CompleteWithContext), loaded(status) == 0)
 
@@ -1289,6 +1415,7 @@ package ro
 //@   binds factory destination ctx
 //@   calls CompleteWithContext ErrorWithContext NextWithContext TryCatchWithErrorValue
 //@   params -
+//@   scope ctx destination e err factory v
 //@   maypanic
 //@   track callfn.factory destination.*
 //@   ensures [value-then-completion|C04] !panicked(factory) && res(callfn.factory, 1) == nil ==> trace(callfn.factory(), destination.NextWithContext(ctx, res(callfn.factory, 0)), destination.CompleteWithContext(ctx))
@@ -1298,6 +1425,7 @@ package ro
 
 //@ operator BufferWithTimeOrCount
 //@   props C04 C16 C05 C08
+//@   scope buffer ctx destination duration flush mu muFlush size slicelit source subscriberCtx subscriptions value varargs
 //@   note sequential-interleaving semantics; the buffer is the machine state: a value is appended, a full buffer or a tick flushes it whole (also when empty), completion flushes then completes
 //@   requires size >= 1
 //@   alias tick=Interval()
@@ -1313,6 +1441,7 @@ package ro
 //@   binds subscriberCtx destination source
 //@   calls Err ErrorWithContext NewObserverWithContext SubscribeWithContext recoverUnhandledError
 //@   params subscriberCtx destination
+//@   scope ctx destination done source sub subscriberCtx value
 //@   track destination.* spawn.ANY source.SubscribeWithContext
 //@   ensures [an-already-cancelled-context-fails-at-once|C14] res(subscriberCtx.Err) != nil ==> trace(destination.ErrorWithContext(subscriberCtx, _))
 //@   ensures [the-context-is-watched-then-the-source-subscribed|C14] res(subscriberCtx.Err) == nil ==> trace(spawn.ANY, source.SubscribeWithContext(subscriberCtx, _))
@@ -1323,6 +1452,7 @@ package ro
 //@   binds destination
 //@   calls CompleteWithContext Done Err ErrorWithContext
 //@   params -
+//@   scope ctx destination done source sub subscriberCtx value
 //@   track destination.* chselect chpoll chrecv.ANY
 //@   ensures [waits-once-for-cancellation-or-teardown|C14] count(chselect) == 1 && count(chpoll) == 0 && count(chrecv.ANY) == 0
 //@   ensures [cancellation-becomes-an-error-teardown-a-completion|C14] count(destination.ErrorWithContext) + count(destination.CompleteWithContext) == 1
@@ -1336,6 +1466,7 @@ package ro
 //@   binds destination interval
 //@   calls NewTicker recoverUnhandledError
 //@   params ctx destination
+//@   scope ctx destination done interval ticker
 //@   requires interval > 0
 //@   maypanic
 //@   track destination.* call.NewTicker
@@ -1348,6 +1479,7 @@ package ro
 //@   binds ctx destination initial interval
 //@   calls NewTicker NewTimer NextWithContext Reset recoverUnhandledError
 //@   params ctx destination
+//@   scope ctx destination done initial interval ticker timer value
 //@   requires initial >= 0 && interval > 0
 //@   maypanic
 //@   track destination.* call.NewTicker call.NewTimer
@@ -1362,6 +1494,7 @@ package ro
 //@   binds mu hasEmptyQueue muEmit sources values destination
 //@   calls CompleteWithContext Lock NextWithContext Unlock fn:hasEmptyQueue
 //@   params ctx
+//@   scope completed ctx destination hasEmptyQueue mu muEmit outerCtx sources subscriptions values
 //@   maypanic
 //@   trusted nopanic/index : the queues are indexed in range because len(values) == len(sources) and hasEmptyQueue() just reported every queue non-empty under the same lock; not proved here (quantified facts about a slice of slices)
 //@   track destination.* loop.*
@@ -1381,6 +1514,7 @@ package ro
 
 //@ operator RandIntN
 //@   props C04 C09 C08 C12
+//@   scope count ctx destination n
 //@   track call.IntN
 //@   on subscribe(ctx, destination) : emits loop.L0, Complete(ctx)
 
@@ -1392,6 +1526,7 @@ package ro
 
 //@ operator RandFloat64
 //@   props C04 C09 C08 C12
+//@   scope count ctx destination
 //@   track call.Float64
 //@   on subscribe(ctx, destination) : emits loop.L0, Complete(ctx)
 
@@ -1404,6 +1539,7 @@ package ro
 //@ operator RangeWithStep
 //@   note every value delivered is the cursor of that iteration (start, start ± step, ...), then completion; how many iterations floating-point arithmetic gives is not reasoned about
 //@   props C04 C09 C08 C12
+//@   scope ctx destination end sign start step
 //@   otherwise start == end : returns Empty()
 //@   on subscribe(ctx, destination) : emits loop.L0, Complete(ctx)
 
@@ -1420,6 +1556,7 @@ package ro
 //@   binds ctx value muEmit window destination
 //@   calls Lock NextWithContext Unlock
 //@   params ctx value
+//@   scope boundary ctx destination err flush mu muEmit skipNew source subscriberCtx value window
 //@   maypanic
 //@   track window.* destination.*
 //@   ensures [the-value-reaches-the-current-window-under-the-emit-lock|C05,C20] trace(window.NextWithContext(ctx, value)) && heldat(muEmit, window.ANY)
@@ -1429,6 +1566,7 @@ package ro
 //@   binds muEmit destination
 //@   calls ErrorWithContext Lock Unlock fn:flush
 //@   params ctx err
+//@   scope boundary ctx destination err flush mu muEmit skipNew source subscriberCtx value window
 //@   maypanic
 //@   track destination.*
 //@   ensures [the-last-window-is-closed-and-the-error-delivered-in-one-step|C05,C20] heldat(muEmit, destination.ANY) && called(destination.ErrorWithContext)
@@ -1438,6 +1576,7 @@ package ro
 //@   binds muEmit destination
 //@   calls CompleteWithContext Lock Unlock fn:flush
 //@   params ctx
+//@   scope boundary ctx destination err flush mu muEmit skipNew source subscriberCtx value window
 //@   maypanic
 //@   track destination.*
 //@   ensures [the-last-window-is-closed-and-the-completion-delivered-in-one-step|C05,C20] heldat(muEmit, destination.ANY) && called(destination.CompleteWithContext)
@@ -1447,6 +1586,7 @@ package ro
 //@   binds muEmit destination
 //@   calls Lock Unlock fn:flush
 //@   params ctx value
+//@   scope boundary ctx destination err flush mu muEmit skipNew source subscriberCtx value window
 //@   maypanic
 //@   track destination.*
 //@   ensures [a-tick-swaps-the-window-under-the-emit-lock|C05,C20] heldat(muEmit, destination.ANY)
@@ -1456,6 +1596,7 @@ package ro
 //@   binds muEmit destination
 //@   calls ErrorWithContext Lock Unlock fn:flush
 //@   params ctx err
+//@   scope boundary ctx destination err flush mu muEmit skipNew source subscriberCtx value window
 //@   maypanic
 //@   track destination.*
 //@   ensures [the-last-window-is-closed-and-the-error-delivered-in-one-step|C05,C20] heldat(muEmit, destination.ANY) && called(destination.ErrorWithContext)
@@ -1465,6 +1606,7 @@ package ro
 //@   binds muEmit destination
 //@   calls CompleteWithContext Lock Unlock fn:flush
 //@   params ctx
+//@   scope boundary ctx destination err flush mu muEmit skipNew source subscriberCtx value window
 //@   maypanic
 //@   track destination.*
 //@   ensures [the-last-window-is-closed-and-the-completion-delivered-in-one-step|C05,C20] heldat(muEmit, destination.ANY) && called(destination.CompleteWithContext)
@@ -1477,6 +1619,7 @@ package ro
 //@   binds subscriberCtx destination obsA obsB
 //@   calls NewSubscription zipInnerSubscription
 //@   params subscriberCtx destination
+//@   scope completedA completedB ctx destination mu muEmit obsA obsB subscriberCtx subscriptions valueA valueB
 //@   track call.zipInnerSubscription
 //@   ensures [each-source-has-its-own-queue-and-flag-under-the-shared-locks|C05,C13,C02] trace(call.zipInnerSubscription(subscriberCtx, obsA, addr(mu), addr(muEmit), addr(valueA), addr(completedA), _, destination, res(call.NewSubscription)), call.zipInnerSubscription(subscriberCtx, obsB, addr(mu), addr(muEmit), addr(valueB), addr(completedB), _, destination, res(call.NewSubscription)))
 
@@ -1485,6 +1628,7 @@ package ro
 //@   binds subscriberCtx destination obsA obsB obsC
 //@   calls NewSubscription zipInnerSubscription
 //@   params subscriberCtx destination
+//@   scope completedA completedB completedC ctx destination mu muEmit obsA obsB obsC subscriberCtx subscriptions valueA valueB valueC
 //@   track call.zipInnerSubscription
 //@   ensures [each-source-has-its-own-queue-and-flag-under-the-shared-locks|C05,C13,C02] trace(call.zipInnerSubscription(subscriberCtx, obsA, addr(mu), addr(muEmit), addr(valueA), addr(completedA), _, destination, res(call.NewSubscription)), call.zipInnerSubscription(subscriberCtx, obsB, addr(mu), addr(muEmit), addr(valueB), addr(completedB), _, destination, res(call.NewSubscription)), call.zipInnerSubscription(subscriberCtx, obsC, addr(mu), addr(muEmit), addr(valueC), addr(completedC), _, destination, res(call.NewSubscription)))
 
@@ -1493,6 +1637,7 @@ package ro
 //@   binds subscriberCtx destination obsA obsB obsC obsD
 //@   calls NewSubscription zipInnerSubscription
 //@   params subscriberCtx destination
+//@   scope completedA completedB completedC completedD ctx destination mu muEmit obsA obsB obsC obsD subscriberCtx subscriptions valueA valueB valueC valueD
 //@   track call.zipInnerSubscription
 //@   ensures [each-source-has-its-own-queue-and-flag-under-the-shared-locks|C05,C13,C02] trace(call.zipInnerSubscription(subscriberCtx, obsA, addr(mu), addr(muEmit), addr(valueA), addr(completedA), _, destination, res(call.NewSubscription)), call.zipInnerSubscription(subscriberCtx, obsB, addr(mu), addr(muEmit), addr(valueB), addr(completedB), _, destination, res(call.NewSubscription)), call.zipInnerSubscription(subscriberCtx, obsC, addr(mu), addr(muEmit), addr(valueC), addr(completedC), _, destination, res(call.NewSubscription)), call.zipInnerSubscription(subscriberCtx, obsD, addr(mu), addr(muEmit), addr(valueD), addr(completedD), _, destination, res(call.NewSubscription)))
 
@@ -1501,6 +1646,7 @@ package ro
 //@   binds subscriberCtx destination obsA obsB obsC obsD obsE
 //@   calls NewSubscription zipInnerSubscription
 //@   params subscriberCtx destination
+//@   scope completedA completedB completedC completedD completedE ctx destination mu muEmit obsA obsB obsC obsD obsE subscriberCtx subscriptions valueA valueB valueC valueD valueE
 //@   track call.zipInnerSubscription
 //@   ensures [each-source-has-its-own-queue-and-flag-under-the-shared-locks|C05,C13,C02] trace(call.zipInnerSubscription(subscriberCtx, obsA, addr(mu), addr(muEmit), addr(valueA), addr(completedA), _, destination, res(call.NewSubscription)), call.zipInnerSubscription(subscriberCtx, obsB, addr(mu), addr(muEmit), addr(valueB), addr(completedB), _, destination, res(call.NewSubscription)), call.zipInnerSubscription(subscriberCtx, obsC, addr(mu), addr(muEmit), addr(valueC), addr(completedC), _, destination, res(call.NewSubscription)), call.zipInnerSubscription(subscriberCtx, obsD, addr(mu), addr(muEmit), addr(valueD), addr(completedD), _, destination, res(call.NewSubscription)), call.zipInnerSubscription(subscriberCtx, obsE, addr(mu), addr(muEmit), addr(valueE), addr(completedE), _, destination, res(call.NewSubscription)))
 
@@ -1509,5 +1655,6 @@ package ro
 //@   binds subscriberCtx destination obsA obsB obsC obsD obsE obsF
 //@   calls NewSubscription zipInnerSubscription
 //@   params subscriberCtx destination
+//@   scope completedA completedB completedC completedD completedE completedF ctx destination mu muEmit obsA obsB obsC obsD obsE obsF subscriberCtx subscriptions valueA valueB valueC valueD valueE valueF
 //@   track call.zipInnerSubscription
 //@   ensures [each-source-has-its-own-queue-and-flag-under-the-shared-locks|C05,C13,C02] trace(call.zipInnerSubscription(subscriberCtx, obsA, addr(mu), addr(muEmit), addr(valueA), addr(completedA), _, destination, res(call.NewSubscription)), call.zipInnerSubscription(subscriberCtx, obsB, addr(mu), addr(muEmit), addr(valueB), addr(completedB), _, destination, res(call.NewSubscription)), call.zipInnerSubscription(subscriberCtx, obsC, addr(mu), addr(muEmit), addr(valueC), addr(completedC), _, destination, res(call.NewSubscription)), call.zipInnerSubscription(subscriberCtx, obsD, addr(mu), addr(muEmit), addr(valueD), addr(completedD), _, destination, res(call.NewSubscription)), call.zipInnerSubscription(subscriberCtx, obsE, addr(mu), addr(muEmit), addr(valueE), addr(completedE), _, destination, res(call.NewSubscription)), call.zipInnerSubscription(subscriberCtx, obsF, addr(mu), addr(muEmit), addr(valueF), addr(completedF), _, destination, res(call.NewSubscription)))
